@@ -76,7 +76,7 @@ func restoreHistory(w *dposkit.World, sk *dposkit.Sink, regime string, warm, h [
 					continue
 				}
 				var diff []string
-				base := strings.TrimSuffix(f, "[membership]")
+				base := strings.TrimSuffix(strings.TrimSuffix(strings.TrimSuffix(f, "[membership]"), "[extra]"), "[missing]")
 				for _, l := range all {
 					if strings.HasPrefix(dposkit.FoldProducer(dposkit.Generic(pathOf(l[2:]))), base) && len(diff) < 6 {
 						diff = append(diff, l)
@@ -157,6 +157,11 @@ func restorePart(r *evid.Run, w *dposkit.World) (restoreCounters, []interface{})
 	depth := r.Pick(1, 2)
 	var samples []interface{}
 	for _, name := range dposkit.RegimeNames {
+		if name == "claim" {
+			// its warm-up writes reward balances directly (op seedreward), which a node fed the
+			// stored blocks again does not repeat: not usable for restore-and-continue
+			continue
+		}
 		warm := regimes[name]
 		// level-wise enumeration (the enabled block kinds of a state are read from an instance)
 		type node struct {
